@@ -14,7 +14,7 @@ def check(res):
         res.violation("crash", "factory sweep aborted (sanitizer report or crash)", {"call": lines[idx], "stderr": err[-3000:]})
     exp = fsweep.model_expect(recs)
     keys = set()
-    compared = modelled = slots = 0
+    compared = modelled = slots = refused_names = 0
     nodoc = set()
     per_class = {}
     for i, r in enumerate(recs):
@@ -37,6 +37,9 @@ def check(res):
             compared += 1
             modelled += mod
             got = d.get(a)
+            if got == "E" and want.startswith("DN") and a == "name" and "enclosing_local_capture" in e["key"]:
+                refused_names += 1            # name() returns an Identifier: the capture of a declaration named otherwise can only refuse
+                continue
             if got != want:
                 k = "read-back:%s:%s" % (e["key"], a)
                 if k not in keys and len(keys) < 12:
@@ -87,6 +90,29 @@ def check(res):
                                   {"call": l[:300]})
     if pn.returncode != 0:
         res.violation("crash:normal-forms", "normal-form requests aborted", {"stderr": pn.stderr[-2000:]})
+    # words whose std::hash codes are equal (the string pool slots words by hash code): each String, and the Identifier made from
+    # it, must still read back the characters it was made from
+    import hashcollide
+    fams, hnote = hashcollide.confirmed_families(res.seed, 10 if res.tier == "quick" else 120)
+    if fams:
+        cexe = build_driver("c03_driver", "asan")
+        words = [w for f in fams for w in f] + [w for f in fams for w in reversed(f)]
+        pc = run([cexe], input="".join("H %s\n" % w.hex() for w in words), env=SAN_ENV, timeout=600)
+        cl = pc.stdout.splitlines()
+        if pc.returncode != 0 or len(cl) != len(words) + 1:
+            res.violation("crash:equal-hash-words", "interning words with equal hash codes aborted", {"stderr": pc.stderr[-2000:], "words": [w.hex() for w in words[:12]]})
+        else:
+            rb = cl[-1].split("=", 1)[1]
+            firsts = {}
+            for i, (w, l) in enumerate(zip(words, cl)):
+                nid = int(dict(x.split("=") for x in l.split())["id"])
+                bad = rb[i] == "0" or (words[nid] != w)
+                if bad and "read-back:get_string:equal-hash" not in keys:
+                    keys.add("read-back:get_string:equal-hash")
+                    res.violation("read-back:get_string:equal-hash",
+                                  "get_string called with the %d bytes %s returns the String made from %s (the two spellings have the same std::hash code)" %
+                                  (len(w), w.hex(), words[nid].hex()),
+                                  {"words_hex": [x.hex() for x in words[:i + 1]][-8:], "observed": l, "rerun": "printf 'H %s\\nH %s\\n' | build/<hash>/asan/c03_driver" % (words[nid].hex(), w.hex())})
     # every result re-read after all the other calls: what a node exposes does not depend on what was built after it
     changed, crashed, err = fsweep.reobserve(calls)
     for kind, fkey, fargs, before, after in changed[:6]:
@@ -114,6 +140,6 @@ def check(res):
         "traces_validated_against_impl": sum(1 for r in recs if r and "dump" in r),
         "input_distribution": {"factories": len(plan), "calls_per_factory_class": per_class, "operand_sorts": fsweep.sort_histogram(calls),
                                "accessor_values_compared": compared, "of_which_reached_by_static_model": modelled,
-                               "constructor_slots_compared": slots, "normal_form_requests": nform,
+                               "constructor_slots_compared": slots, "captures_of_declarations_not_named_by_an_identifier_refusing_name": refused_names, "normal_form_requests": nform, "equal_hash_words": hnote,
                                "not_swept": ["%s::%s (%s)" % tuple(s) for s in P["skipped"]]},
     })
